@@ -33,13 +33,49 @@ package mux
 //@   ensures (result1 <==> has(cacheMap, key)) && (result1 ==> result0 == cacheMap[key])
 //@   modifies
 //@ func CacheFacade.Set
-//@   trusted interface contract: stores the entry; other entries may be evicted, never changed
-//@   ensures has(cacheMap, key) && cacheMap[key] == value && forall k interface{} :: { has(cacheMap, k) } k != key && has(cacheMap, k) ==> old(has(cacheMap, k)) && cacheMap[k] == old(cacheMap[k])
+//@   trusted interface contract: stores the entry unless it is evicted at once (an LRU entry larger than the capacity); other entries may be evicted, never changed; the key's old value never survives
+//@   ensures (has(cacheMap, key) ==> cacheMap[key] == value) && forall k interface{} :: { has(cacheMap, k) } k != key && has(cacheMap, k) ==> old(has(cacheMap, k)) && cacheMap[k] == old(cacheMap[k])
 //@   modifies entries(cacheMap)
 //@ func CacheFacade.Delete
 //@   trusted interface contract: removes the entry
 //@   ensures !has(cacheMap, key) && forall k interface{} :: { has(cacheMap, k) } k != key ==> has(cacheMap, k) == old(has(cacheMap, k)) && cacheMap[k] == old(cacheMap[k])
 //@   modifies entries(cacheMap)
+//
+// ---- the two facades shipped with the package conform to the interface contract above ----
+// Abstraction: has(cacheMap, k) is has(lc(m).table, k); cacheMap[k] is the value inside the wrapper stored under k. Each
+// clause below is the corresponding clause of the interface contract, stated over the embedded cache (whose own
+// contracts are proved under C04); cs(e) is the value of e at the embedded cache's linearisation point.
+//@ pure lc(m *FacadeLRU) *cache.LRUCache = addrof(m.LRUCache)
+//@ pure lent(e *list.Element) *cache.entry = *cache.entry(e.Value)
+//@ pure lval(m *FacadeLRU, k interface{}) interface{} = _wrapper(lent(lc(m).table[k]).value).v
+//@ func _wrapper.Size
+//@   ensures 0 <= result && result < 4611686018427387904
+//@   modifies
+//@ lemma stored_by_facade_set(v interface{}, ok bool)
+//@   trusted a FacadeLRU's embedded cache is written only through FacadeLRU.Set, which stores wrappers (proved: FacadeLRU.Set/post#stored.1): every value found in it is a _wrapper
+//@   ensures ok ==> tag(v) == tagof(_wrapper)
+//@ func FacadeLRU.Peek
+//@   requires !held(lc(m).mu)
+//@   ensures #lookup (result1 <==> cs(has(lc(m).table, key))) && (result1 ==> result0 == cs(lval(m, key)))
+//@   ensures #miss !result1 ==> result0 == nil
+//@   aftercall Peek use stored_by_facade_set(result0, result1)
+//@   modifies cache.LRUCache.list, cache.LRUCache.table, cache.LRUCache.size, cache.LRUCache.capacity, cache.LRUCache.evictions, mapsof(lc(m).table), list.List.lmem, list.List.lcnt, list.Element.lrk, list.Element.Value, cache.entry.key, cache.entry.value, cache.entry.size
+//@ func FacadeLRU.Get
+//@   requires !held(lc(m).mu)
+//@   ensures #lookup (result1 <==> cs(has(lc(m).table, key))) && (result1 ==> result0 == cs(lval(m, key)))
+//@   ensures #miss !result1 ==> result0 == nil
+//@   aftercall Get use stored_by_facade_set(result0, result1)
+//@   modifies cache.LRUCache.list, cache.LRUCache.table, cache.LRUCache.size, cache.LRUCache.capacity, cache.LRUCache.evictions, mapsof(lc(m).table), list.List.lmem, list.List.lcnt, list.Element.lrk, list.Element.Value, cache.entry.key, cache.entry.value, cache.entry.size
+//@ func FacadeLRU.Set
+//@   requires !held(lc(m).mu)
+//@   ensures #stored has(lc(m).table, key) ==> tag(lent(lc(m).table[key]).value) == tagof(_wrapper) && lval(m, key) == value
+//@   ensures #others forall k interface{} :: { has(lc(m).table, k) } has(lc(m).table, k) && k != key ==> cs(has(lc(m).table, k)) && lent(lc(m).table[k]).value == cs(lent(lc(m).table[k]).value)
+//@   modifies region($alloc), cache.LRUCache.list, cache.LRUCache.table, cache.LRUCache.size, cache.LRUCache.capacity, cache.LRUCache.evictions, mapsof(lc(m).table), list.List.lmem, list.List.lcnt, list.Element.lrk, list.Element.Value, cache.entry.key, cache.entry.value, cache.entry.size
+//@ func FacadeLRU.Delete
+//@   requires !held(lc(m).mu)
+//@   ensures #gone !has(lc(m).table, key)
+//@   ensures #others forall k interface{} :: { has(lc(m).table, k) } k != key ==> has(lc(m).table, k) == cs(has(lc(m).table, k)) && lc(m).table[k] == cs(lc(m).table[k])
+//@   modifies cache.LRUCache.list, cache.LRUCache.table, cache.LRUCache.size, cache.LRUCache.capacity, cache.LRUCache.evictions, mapsof(lc(m).table), list.List.lmem, list.List.lcnt, list.Element.lrk, list.Element.Value, cache.entry.key, cache.entry.value, cache.entry.size
 //
 // ---- the store callbacks ----
 //@ func funcval op.loadFn
@@ -89,14 +125,14 @@ package mux
 //@   ensures #coherent coh()
 //@   ensures #once replies == old(replies) + 1
 //@   ensures #dup old(has(cacheMap, op.k)) ==> lastErr == ErrDupKey && storeSame() && cacheSame()
-//@   ensures #value lastErr == nil ==> has(storeMap, op.k) && lastR == storeMap[op.k] && has(cacheMap, op.k)
+//@   ensures #value lastErr == nil ==> has(storeMap, op.k) && lastR == storeMap[op.k] && (has(cacheMap, op.k) ==> cacheMap[op.k] == lastR)
 //@   ensures #failed lastErr != nil ==> storeSame() && cacheSame()
 //@   modifies entries(cacheMap), entries(storeMap), lastR, lastErr, replies
 //@ func Worker.handleUpdate
 //@   requires w != nil && c != nil && op != nil && coh() && curKey == op.k
 //@   ensures #coherent coh()
 //@   ensures #once replies == old(replies) + 1
-//@   ensures #value lastErr == nil ==> has(storeMap, op.k) && lastR == storeMap[op.k] && has(cacheMap, op.k)
+//@   ensures #value lastErr == nil ==> has(storeMap, op.k) && lastR == storeMap[op.k] && (has(cacheMap, op.k) ==> cacheMap[op.k] == lastR)
 //@   ensures #failed lastErr != nil ==> storeSame() && cacheSame()
 //@   modifies entries(cacheMap), entries(storeMap), lastR, lastErr, replies
 //@ func Worker.handleDelete
@@ -110,21 +146,21 @@ package mux
 //@   requires w != nil && c != nil && op != nil && coh() && curKey == op.k
 //@   ensures #coherent coh()
 //@   ensures #once replies == old(replies) + 1
-//@   ensures #value lastErr == nil ==> has(storeMap, op.k) && lastR == storeMap[op.k] && has(cacheMap, op.k)
+//@   ensures #value lastErr == nil ==> has(storeMap, op.k) && lastR == storeMap[op.k] && (has(cacheMap, op.k) ==> cacheMap[op.k] == lastR)
 //@   ensures #failed lastErr != nil ==> storeSame() && cacheSame()
 //@   modifies entries(cacheMap), entries(storeMap), lastR, lastErr, replies
 //@ func Worker.handleMixUpsertThenLoad
 //@   requires w != nil && c != nil && op != nil && coh() && curKey == op.k
 //@   ensures #coherent coh()
 //@   ensures #once replies == old(replies) + 1
-//@   ensures #value lastErr == nil ==> has(storeMap, op.k) && lastR == storeMap[op.k] && has(cacheMap, op.k)
+//@   ensures #value lastErr == nil ==> has(storeMap, op.k) && lastR == storeMap[op.k] && (has(cacheMap, op.k) ==> cacheMap[op.k] == lastR)
 //@   ensures #failed lastErr != nil ==> cacheSame()
 //@   modifies entries(cacheMap), entries(storeMap), lastR, lastErr, replies
 //@ func Worker.handleMixUpsertThenRenewInCache
 //@   requires w != nil && c != nil && op != nil && coh() && curKey == op.k
 //@   ensures #coherent coh()
 //@   ensures #once replies == old(replies) + 1
-//@   ensures #value lastErr == nil ==> has(storeMap, op.k) && (old(has(cacheMap, op.k)) ==> lastR == storeMap[op.k] && has(cacheMap, op.k) && cacheMap[op.k] == lastR)
+//@   ensures #value lastErr == nil ==> has(storeMap, op.k) && (old(has(cacheMap, op.k)) ==> lastR == storeMap[op.k] && (has(cacheMap, op.k) ==> cacheMap[op.k] == lastR))
 //@   ensures #nocache !old(has(cacheMap, op.k)) ==> cacheSame()
 //@   ensures #failed lastErr != nil ==> storeSame() && cacheSame()
 //@   modifies entries(cacheMap), entries(storeMap), lastR, lastErr, replies
